@@ -225,6 +225,18 @@ impl<K: SlotKey, V> BTreeMap<K, V> {
         }
         i
     }
+    /// sorted insertion without `Vec::insert`: push, then bubble the new entry down with adjacent
+    /// swaps (a `Vec::insert` at an index CBMC cannot resolve is a memmove of symbolic length);
+    /// returns the entry's final index
+    fn insert_sorted(&mut self, k: K, v: V) -> usize {
+        self.entries.push((k, v));
+        let mut j = self.entries.len() - 1;
+        while j > 0 && self.entries[j - 1].0 > self.entries[j].0 {
+            self.entries.swap(j - 1, j);
+            j -= 1;
+        }
+        j
+    }
     fn reindex_from(&mut self, from: usize) {
         let mut j = from;
         while j < self.entries.len() {
@@ -242,8 +254,7 @@ impl<K: SlotKey, V> BTreeMap<K, V> {
             Some(i) => Some(std::mem::replace(&mut self.entries[i].1, v)),
             None => {
                 assert!(self.entries.len() < 255, "verif-vcoll: BTreeMap stand-in capacity exceeded");
-                let i = self.insertion_point(&k);
-                self.entries.insert(i, (k, v));
+                let i = self.insert_sorted(k, v);
                 self.reindex_from(i);
                 None
             }
@@ -360,8 +371,7 @@ impl<'a, K: SlotKey, V> BEntry<'a, K, V> {
         let i = match self.map.index_of(&self.key) {
             Some(i) => i,
             None => {
-                let i = self.map.insertion_point(&self.key);
-                self.map.entries.insert(i, (self.key, f()));
+                let i = self.map.insert_sorted(self.key, f());
                 self.map.reindex_from(i);
                 i
             }
